@@ -1980,6 +1980,19 @@ fn compile_aexpr_assign(
                 name: go_ident(target),
                 value: compile_cexpr(goenv, &other),
             }],
+            anf::CExpr::ECall { func, args, ty }
+                if matches!(&func, anf::ImmExpr::ImmVar { name, .. } if name == "missing")
+                    && ty != tast::Ty::TUnit =>
+            {
+                vec![goast::Stmt::Expr(compile_cexpr(
+                    goenv,
+                    &anf::CExpr::ECall {
+                        func,
+                        args,
+                        ty: tast::Ty::TUnit,
+                    },
+                ))]
+            }
             anf::CExpr::ECall { func, args, ty } => {
                 vec![goast::Stmt::Assignment {
                     name: go_ident(target),
